@@ -34,11 +34,15 @@ def _write_file_atomically(file_path: pathlib.Path, data: bytes):
 
 
 def check_sid_folder_exist(sid: str):
-    return _PROGRAM_PATH.joinpath(sid).exists()
+    # A folder without its config or meta file is the remnant of an interrupted configuration upload:
+    # the service is still not configured (the upload can simply be repeated).
+    return _PROGRAM_PATH.joinpath(sid).exists() \
+           and _PROGRAM_PATH.joinpath(sid).joinpath("config.json").exists() \
+           and _PROGRAM_PATH.joinpath(sid).joinpath("service_meta").exists()
 
 
 def create_sid_folder(sid: str):
-    _PROGRAM_PATH.joinpath(sid).mkdir()
+    _PROGRAM_PATH.joinpath(sid).mkdir(exist_ok=True)
 
 
 def delete_sid_folder(sid: str):
